@@ -1,69 +1,5 @@
-// c17_nn.cpp — implementation side of the C17 correspondence, floating-point routines on run-time shaped
-// double operands (array data arrive as integers and are divided by 8.0, exactly as the OCaml oracle does):
-//   softmax A:x I:axis | softmin A:x I:axis | batch_norm A:x A:mean A:var A:weight A:bias
-//   layer_norm A:x A:weight A:bias | instance_norm I:nd A:x A:weight A:bias | group_norm A:x I:groups A:weight A:bias
-//   linear A:x A:w <A:b|N> | bilinear A:x1 A:x2 A:w <A:b|N> | pairwise_distance A:x A:y | cosine_similarity A:x A:y I:axis
-#include "nmtools/array/view/softmax.hpp"
-#include "nmtools/array/view/softmin.hpp"
-#include "nmtools/array/view/batch_norm.hpp"
-#include "nmtools/array/view/layer_norm.hpp"
-#include "nmtools/array/view/instance_norm.hpp"
-#include "nmtools/array/view/group_norm.hpp"
-#include "nmtools/array/view/linear.hpp"
-#include "nmtools/array/view/bilinear.hpp"
-#include "nmtools/array/view/pairwise_distance.hpp"
-#include "nmtools/array/view/cosine_similarity.hpp"
-#include "c17_show.hpp"
-
-namespace view = nmtools::view;
-using namespace vd;
-using namespace nmtools::literals;
-
-static dyn_t<double> farr(const Arg& a) {
-    auto r = make_array<dyn_t<double>>(a);
-    std::vector<size_t> shp(a.shape.begin(), a.shape.end());
-    std::vector<size_t> idx(shp.size(), 0);
-    size_t n = 1; for (auto e : shp) n *= e;
-    for (size_t c = 0; c < n; c++) {
-        r(idx) = (double)a.list[c] / 8.0;
-        for (int d = (int)shp.size() - 1; d >= 0; d--) { if (++idx[d] < shp[d]) break; idx[d] = 0; }
-    }
-    return r;
-}
-template <typename V> static std::string sd(const V& v) { return show_cast<double>(v); }
-
-static std::string handle(const Case& c) {
-    const auto& op = c.op; const auto& a = c.args;
-    const double eps5 = 1e-5;
-    if (op == "softmax") { auto x = farr(a[0]); return sd(view::softmax(x, (int)a[1].val)); }
-    if (op == "softmin") { auto x = farr(a[0]); return sd(view::softmin(x, (int)a[1].val)); }
-    if (op == "batch_norm") {
-        auto x = farr(a[0]), m = farr(a[1]), v = farr(a[2]), w = farr(a[3]), b = farr(a[4]);
-        return sd(view::batch_norm(x, m, v, w, b, eps5));
-    }
-    if (op == "layer_norm") { auto x = farr(a[0]), w = farr(a[1]), b = farr(a[2]); return sd(view::layer_norm(x, w, b, eps5)); }
-    if (op == "instance_norm") {
-        auto x = farr(a[1]), w = farr(a[2]), b = farr(a[3]);
-        switch (a[0].val) {
-            case 1: return sd(view::instance_norm_1d(x, w, b, eps5));
-            case 2: return sd(view::instance_norm_2d(x, w, b, eps5));
-            default: return "unsupported";
-        }
-    }
-    if (op == "group_norm") { auto x = farr(a[0]), w = farr(a[2]), b = farr(a[3]); return sd(view::group_norm(x, (int)a[1].val, w, b, eps5)); }
-    if (op == "linear") {
-        auto x = farr(a[0]), w = farr(a[1]);
-        if (a[2].kind == 'N') return sd(view::linear(x, w));
-        auto b = farr(a[2]); return sd(view::linear(x, w, b));
-    }
-    if (op == "bilinear") {
-        auto x1 = farr(a[0]), x2 = farr(a[1]), w = farr(a[2]);
-        if (a[3].kind == 'N') return sd(view::bilinear(x1, x2, w));
-        auto b = farr(a[3]); return sd(view::bilinear(x1, x2, w, b));
-    }
-    if (op == "pairwise_distance") { auto x = farr(a[0]), y = farr(a[1]); return sd(view::pairwise_distance(x, y, 2_ct, 1e-6)); }
-    if (op == "cosine_similarity") { auto x = farr(a[0]), y = farr(a[1]); return sd(view::cosine_similarity(x, y, (int)a[2].val, 1e-8)); }
-    return "unsupported";
-}
-
-int main() { return vd::run_main(handle, 16, 20); }
+// c17_nn.cpp — C17 floating-point routines on run-time shaped DOUBLE operands (body in c17_nn.inc)
+#define C17_FT double
+#define C17_SUFFIX ""
+#define C17_PREFIX ""
+#include "c17_nn.inc"
